@@ -9,6 +9,7 @@ import CoCoVerif.Lemmas.RelocMod
 import CoCoVerif.Lemmas.RelocNeg
 import CoCoVerif.Lemmas.RelocEqu
 import CoCoVerif.Lemmas.RelocParse
+import CoCoVerif.Lemmas.RelocList
 
 namespace CoCo.Asm
 open CoCo
@@ -376,6 +377,19 @@ theorem stage4_eq {fs : Files} {lines : List Str} {A : Assembly} (st : Stages fs
     rw [a6] at h
     simpa using h
   · cases h
+
+/-- (model batch 8) every FCB / FDB list of the program consists of literals (evaluated on `stage4`): every statement that
+enters `fixAll` is `ListsConst`, whatever the label table -/
+theorem listsConst_of_stage4 {fs : Files} {lines : List Str} {A : Assembly} (st : Stages fs lines A)
+    (h : (stage4 lines).map literalListsB = some true) :
+    ∀ (i : Nat) (s : Stmt), st.ss4[i]? = some s → ListsConst st.t s := by
+  cases h4 : stage4 lines with
+  | none => rw [h4] at h; cases h
+  | some x =>
+    rw [h4] at h
+    simp only [Option.map_some, Option.some.injEq] at h
+    rw [stage4_eq st h4]
+    exact literalListsB_sound h st.t
 
 /-! ### the classes of a symbol table entry (model batch 4: `evalSyms`), executable -/
 
